@@ -181,7 +181,14 @@ def run_schedule(ctx, rng, nthr, nops, **gen_kw):
                 mon.granted += int(w[1])
             if w[0] == "feedx" and w[2] != "1":
                 mon.discarded += int(w[3])
-            rig.do(op)
+            try:
+                rig.do(op)
+            except lib_chan.RigDeadlock as e:
+                pp = rig.protocol_problem()
+                mon.problem = mon.problem or pp or ("deadlock:real-code-blocked-under-the-schedule", str(e))
+                reqs.append(op)
+                impl.append("*")
+                break
             if w[0] == "send":
                 requested[int(w[1])] = int(w[2])
             for t, lt in enumerate(rig.threads):
